@@ -184,12 +184,13 @@ def main(argv=None):
             # the guard only bites on an overloaded machine (an idle quick run takes 5-40 s); keep it
             # generous so that coverage does not depend on the load of the host
             budget = max(budget, float(os.environ.get("VERIF_QUICK_GUARD", "120")))
-    deadline = time.time() + budget
     try:
         tasks = list(mod.plan(a.tier, seed))
     except Exception:  # noqa: BLE001
         traceback.print_exc()
         return 2
+    # the guard starts after planning (plan() may import heavy modules)
+    deadline = time.time() + budget
     rfiles = sorted(glob.glob(os.path.join(HERE, "replays", pid, "*.json")))
     if rfiles:
         tasks.insert(0, {"task": "__replays__", "files": rfiles})
